@@ -6,8 +6,8 @@
    var_info.go:FindAllVar, textdocument_symbol.go:transferSymbolVec) and workspace/symbol
    (check_lsp_symbol.go:getQuerySymbols; the fuzzy matcher is an oracle `score`).
 
-   `fx` selects the range computation of an entry with children: false = the code in /repo (start column overwritten
-   by the largest child end column), true = after work/fixes/C19-outline-range.diff. *)
+   `fx : fixes` selects which repairs of the outline code are in effect, one flag per fix: commit (fx_none = the code
+   before any repair: start column overwritten by the largest child end column, ...; fx_all = every repair). *)
 From Coq Require Import List NArith ZArith Bool.
 From LH Require Import Base.Bytes Base.Res Model.Lexer Model.Ast Model.Parser Model.LuaFront.
 Import ListNotations.
@@ -669,11 +669,12 @@ Definition finalize (s : state) : state :=
   match merge_ws [s] with Some [s'] => s' | _ => s end.
 
 (* ------------------------------------------------------------------ documentSymbol *)
-(* one outline entry; s_key / s_decl are ghost fields for the theorems and the executable judge:
-   s_key = the map key (child: prefix ++ sep ++ key) without decoration, s_decl = VarInfo.Loc *)
+(* one outline entry; s_key / s_decl / s_undecl are ghost fields for the theorems and the executable judge:
+   s_key = the map key (child: prefix ++ sep ++ key) without decoration, s_decl = VarInfo.Loc, s_undecl = the entry
+   stands for a name that the file never defines (NodefineMaps) and only carries its members *)
 Record csym := mkCS { c_key : bytes; c_name : bytes; c_fn : bool; c_loc : loc; c_decl : loc }.
 Record sym := mkS { s_key : bytes; s_name : bytes; s_fn : bool; s_loc : loc; s_decl : loc; s_children : list csym;
-                    s_local : bool }.
+                    s_local : bool; s_undecl : bool }.
 
 Definition b_comma_sp : bytes := [44; 32]%N.
 Definition b_lpar : bytes := [40]%N.
@@ -690,18 +691,27 @@ Definition param_suffix (skip_self : bool) (ps : list bytes) : bytes :=
   let ps' := if skip_self then filter (fun p => negb (beq_bytes p s_self)) ps else ps in
   match join_params ps' with [] => [] | j => b_lpar ++ j ++ b_rpar end.
 
-(* VarInfo.FindAllVar *)
-Definition child_sym (pre : bytes) (k : bytes) (v : vinfo) : csym :=
-  match v_func v with
-  | Some fi =>
-    let sep := if f_colon fi then c_colon else c_dot in
-    mkCS (pre ++ [c_dot] ++ k) (pre ++ [sep] ++ k ++ param_suffix true (f_params fi)) true (f_loc fi) (v_loc v)
-  | None => mkCS (pre ++ [c_dot] ++ k) (pre ++ [c_dot] ++ k) false (v_loc v) (v_loc v)
-  end.
-
 Definition end_gt (l1 c1 l2 c2 : Z) : bool := (l1 >? l2)%Z || ((l1 =? l2)%Z && (c1 >? c2)%Z).
 
-(* maxLoc over the children, starting from the symbol's own end *)
+(* lexer.Location.Union (added by fixes/C19-assigned-function-range.diff): the smallest Location that covers both *)
+Definition loc_union (a b : loc) : loc :=
+  let a1 := if loc_before a b then a else mkLoc (sl b) (sc b) (el a) (ec a) in
+  if end_gt (el b) (ec b) (el a1) (ec a1) then mkLoc (sl a1) (sc a1) (el b) (ec b) else a1.
+
+(* which repairs of the outline code are in effect (one flag per fix: commit; all false = the code before any repair) *)
+Record fixes := mkFx {
+  fx_range : bool;      (* fixes/C19-outline-range.diff (5912ee6): the END column is taken from the children *)
+  fx_fnspan : bool;     (* fixes/C19-assigned-function-range.diff: function entry = Union(function literal, identifier) *)
+  fx_hull : bool;       (* fixes/C19-children-inside.diff: entry with children = Union(own Loc, every child) *)
+  fx_alldecl : bool;    (* fixes/C19-shadowed-top-local.diff: one entry per local DECLARATION, not per name *)
+  fx_undecl : bool;     (* fixes/C19-member-of-undeclared.diff: members of names the file never defines are listed *)
+  fx_ownfile : bool }.  (* fixes/C19-foreign-member.diff: members that OTHER files contributed are not listed *)
+
+Definition fx_none : fixes := mkFx false false false false false false.
+Definition fx_round1 : fixes := mkFx true false false false false false.       (* /repo after 5912ee6 *)
+Definition fx_all : fixes := mkFx true true true true true true.
+
+(* maxLoc over the children, starting from the symbol's own end (code before fixes/C19-children-inside.diff) *)
 Fixpoint max_end (cs : list csym) (l c : Z) : Z * Z :=
   match cs with
   | [] => (l, c)
@@ -710,23 +720,39 @@ Fixpoint max_end (cs : list csym) (l c : Z) : Z * Z :=
   end.
 
 Section Outline.
-  Variable fx : bool.     (* false: /repo as is; true: with work/fixes/C19-outline-range.diff *)
+  Variable fx : fixes.
 
-  (* `oneSymbol.Loc.EndLine = maxLoc.EndLine; oneSymbol.Loc.StartColumn = maxLoc.EndColumn` (fixed: EndColumn) *)
+  (* the range of a function-valued entry: ReferFunc.Loc, repaired: ReferFunc.Loc.Union(VarInfo.Loc) *)
+  Definition fn_range (fl decl : loc) : loc := if fx_fnspan fx then loc_union fl decl else fl.
+
+  (* VarInfo.FindAllVar *)
+  Definition child_sym (pre : bytes) (k : bytes) (v : vinfo) : csym :=
+    match v_func v with
+    | Some fi =>
+      let sep := if f_colon fi then c_colon else c_dot in
+      mkCS (pre ++ [c_dot] ++ k) (pre ++ [sep] ++ k ++ param_suffix true (f_params fi)) true
+           (fn_range (f_loc fi) (v_loc v)) (v_loc v)
+    | None => mkCS (pre ++ [c_dot] ++ k) (pre ++ [c_dot] ++ k) false (v_loc v) (v_loc v)
+    end.
+
+  (* before any repair: `oneSymbol.Loc.EndLine = maxLoc.EndLine; oneSymbol.Loc.StartColumn = maxLoc.EndColumn`;
+     fx_range: EndColumn; fx_hull: `oneSymbol.Loc = oneSymbol.Loc.Union(subOneSymbol.Loc)` for every child *)
   Definition parent_loc (l : loc) (cs : list csym) : loc :=
+    if fx_hull fx then fold_left (fun acc c => loc_union acc (c_loc c)) cs l else
     let (ml, mc) := max_end cs (el l) (ec l) in
-    if fx then mkLoc (sl l) (sc l) ml mc else mkLoc (sl l) mc ml (ec l).
+    if fx_range fx then mkLoc (sl l) (sc l) ml mc else mkLoc (sl l) mc ml (ec l).
 
   (* the entry of one variable; skip_self / local as in the two callers *)
   Definition var_sym (is_local : bool) (nm : bytes) (v : vinfo) : sym :=
     match v_func v with
-    | Some fi => mkS nm (nm ++ param_suffix is_local (f_params fi)) true (f_loc fi) (v_loc v) [] is_local
+    | Some fi => mkS nm (nm ++ param_suffix is_local (f_params fi)) true (fn_range (f_loc fi) (v_loc v)) (v_loc v) []
+                     is_local false
     | None =>
       match v_sub v with
-      | [] => mkS nm nm false (v_loc v) (v_loc v) [] is_local
+      | [] => mkS nm nm false (v_loc v) (v_loc v) [] is_local false
       | subs =>
         let cs := map (fun kv => child_sym nm (fst kv) (snd kv)) subs in
-        mkS nm nm false (parent_loc (v_loc v) cs) (v_loc v) cs is_local
+        mkS nm nm false (parent_loc (v_loc v) cs) (v_loc v) cs is_local false
       end
     end.
 
@@ -741,10 +767,14 @@ Section Outline.
   Definition last_var (vs : list vinfo) : option vinfo :=
     match rev vs with v :: _ => Some v | [] => None end.
 
+  (* the VarInfos of one name that get an entry: the last of VarVec; repaired (fx_alldecl): every element; never a
+     parameter *)
+  Definition listed_of (vs : list vinfo) : list vinfo :=
+    filter (fun v => negb (v_param v))
+           (if fx_alldecl fx then vs else match last_var vs with Some v => [v] | None => [] end).
+
   Definition listed_locals (vars : list (bytes * list vinfo)) : list (bytes * vinfo) :=
-    flat_map (fun kv => match last_var (snd kv) with
-                        | Some v => if v_param v then [] else [(fst kv, v)]
-                        | None => [] end) vars.
+    flat_map (fun kv => map (fun v => (fst kv, v)) (listed_of (snd kv))) vars.
 
   Definition memN (x : N) (l : list N) : bool := existsb (N.eqb x) l.
 
@@ -772,15 +802,37 @@ Section Outline.
                 (match v_func (snd kv) with Some fi => [f_id fi] | None => [] end) ++
                 flat_map (fun kv2 => match v_func (snd kv2) with Some fi => [f_id fi] | None => [] end) (v_sub (snd kv))) g.
 
+  Definition mark_undecl (s : sym) : sym :=
+    mkS (s_key s) (s_name s) (s_fn s) (s_loc s) (s_decl s) (s_children s) (s_local s) true.
+
+  (* fixes/C19-member-of-undeclared.diff: the NodefineMaps variables that have members and no global of the same name
+     in this file (those were merged into that global): an entry at the first occurrence of the name, with the members
+     defined in this file as children *)
+  Definition undeclared_syms (s : state) : list sym :=
+    if fx_undecl fx then
+      flat_map (fun kv => match v_sub (snd kv) with
+                          | [] => []
+                          | _ => if assoc_mem (fst kv) (globs s) then [] else [mark_undecl (var_sym false (fst kv) (snd kv))]
+                          end) (nodefs s)
+    else [].
+
   (* FileResult.FindAllSymbol (no protocol prefixes configured, _G outside the fragment) *)
   Definition find_all_symbol (s : state) : list sym :=
     find_all_local (gmaps_fids (globs s)) (main_scope s) ++
-    map (fun kv => var_sym false (fst kv) (snd kv)) (globs s).
+    map (fun kv => var_sym false (fst kv) (snd kv)) (globs s) ++
+    undeclared_syms s.
 End Outline.
 
-(* which variant the deployed code is (ONE-LINE SWITCH after the fix is applied to /repo): the driver compares the
-   implementation with `find_all_symbol deployed_fixed` *)
-Definition deployed_fixed : bool := true.
+(* the state that FindAllSymbol of file i reads in a workspace: the file's first-pass tables after the workspace merge
+   (`merged` = merge_ws orig). With fixes/C19-foreign-member.diff the members contributed by other files are skipped,
+   which leaves the merge of the file's own "nodefine" members: `finalize` of the file alone (the cases in which the
+   workspace merge is ambiguous - merge_ws = None - are outside both variants). *)
+Definition outline_state (fx : fixes) (orig merged : list state) (i : nat) : option state :=
+  if fx_ownfile fx then option_map finalize (nth_error orig i) else nth_error merged i.
+
+(* which variant the deployed code is (ONE-LINE SWITCH): the driver compares the implementation with
+   `find_all_symbol deployed (outline_state deployed ..)` *)
+Definition deployed : fixes := fx_all.
 
 (* ------------------------------------------------------------------ workspace/symbol *)
 Record wsym := mkW { w_name : bytes; w_fn : bool; w_loc : loc }.
@@ -810,12 +862,17 @@ Fixpoint w_subscopes (ex : list N) (sc : scope) : list wsym :=
          (fix go (l : list scope) : list wsym := match l with [] => [] | x :: l' => w_subscopes ex x ++ go l' end) subs
   end.
 
-(* resultSorter.getQuerySymbols for one file *)
-Definition file_wsyms (s : state) : list wsym :=
+(* resultSorter.getQuerySymbols for one file; fx_undecl (fixes/C19-member-of-undeclared.diff): also the members that
+   the file defines on names it never defines. (fx_ownfile - members contributed by other files are skipped - is a
+   matter of which state is passed: see outline_state.) *)
+Definition file_wsyms (fx : fixes) (s : state) : list wsym :=
   flat_map (fun kv => mkW (fst kv) (is_some (v_func (snd kv))) (v_loc (snd kv)) :: w_members false (fst kv) (snd kv))
            (globs s) ++
   w_scope_vars false (s_vars (main_scope s)) ++
-  flat_map (w_subscopes (gmaps_fids (globs s))) (s_subs (main_scope s)).
+  flat_map (w_subscopes (gmaps_fids (globs s))) (s_subs (main_scope s)) ++
+  (if fx_undecl fx
+   then flat_map (fun kv => if assoc_mem (fst kv) (globs s) then [] else w_members false (fst kv) (snd kv)) (nodefs s)
+   else []).
 
 (* ------------------------------------------------------------------ from bytes *)
 Definition fuel_of_bytes (bs : list N) : nat := S (S (length bs)).
